@@ -97,6 +97,13 @@ def gen_plan(seed, tier):
     desc["global_scale"] = r2.choice([1e-8, 1e-6, 1e-3, 1e3, 1e6])     # units are arbitrary
   elif cls == "LFDA" and r2.random() < 0.15:
     desc["global_scale"] = r2.choice([1e-3, 1e3])
+  r4 = substream(seed, "c09-f32")
+  if cls == "Covariance" and not desc.get("global_scale") and desc.get("kind") != "lowrank" and r4.random() < 0.2:
+    # single-precision measurements whose features live on very different scales (legal input;
+    # the documented formula is the pseudo-inverse of *their* covariance)
+    plan["f32_cols"] = r4.choice([2.0, 3.0, 3.5])
+  if r4.random() < 0.4:
+    plan["pickled_before_fit"] = True     # the estimator went through a pickle round trip before it is fitted
   if cls == "LFDA" and r2.random() < 0.15:
     # repeated measurements: a point whose k nearest class-mates coincide with it has
     # local scale 0, and the documented affinity of such a pair is 0
@@ -134,6 +141,11 @@ def run_plan(plan):
   D = make_data(plan["dataset"])
   X, y = D.X, D.y
   d = D.d
+  if plan.get("f32_cols") and cls == "Covariance":
+    rsc = np.random.RandomState(h64("c09-f32", plan["run_seed"]) & 0xFFFFFFFF)
+    colscale = 10.0 ** rsc.permutation(np.linspace(0.0, float(plan["f32_cols"]), d))
+    X = (X * colscale).astype(np.float32)
+    cov["covariance_float32_scaled_columns"] += 1
   if plan["dataset"].get("same_class_dups"):
     X = X.copy()
     rd = np.random.RandomState(h64("c09-dups", plan["run_seed"]) & 0xFFFFFFFF)
@@ -179,6 +191,10 @@ def run_plan(plan):
       c0, f0 = world.EIGSH.calls, world.EIGSH.forced
       g0 = world.EIGSH.eigh_forced
       est = getattr(ml, cls)(**p)
+      if plan.get("pickled_before_fit"):
+        import pickle
+        est = pickle.loads(pickle.dumps(est))
+        cov["pickled_before_fit"] += 1
       pf = world.PinvhSeam(fail_first=bool(plan.get("pinvh_fault")))
       with world.observed() as wl, pf:
         try:
@@ -219,12 +235,12 @@ def run_plan(plan):
       M = L.T.dot(L)
       ev["M"] = digest(np.round(M / (np.abs(M).max() + 1e-300), 9))
       if cls == "Covariance":
-        Mr, rank, w = cf.covariance_ref(X)
+        Mr, rank, w = cf.covariance_ref(np.asarray(X, dtype=float))
         wpos = w[w > 0]
         if len(wpos) and rank < d:
           # singular covariance: make sure the cut between kept/dropped eigenvalues is clear
           ws = np.sort(np.abs(w))[::-1]
-          if ws[rank] > 1e-13 * ws[0]:
+          if ws[rank] > 2e-15 * ws[0]:      # (the library keeps what exceeds ~d*eps, the reference what exceeds 1e-10)
             inconclusive.append("covariance_rank_ambiguous")
             continue
           cov["covariance_singular"] += 1
